@@ -31,6 +31,9 @@ pub enum Op {
         clone_every: u64,
     },
     Reset { n: usize },
+    /// construct node `n` (from `nodes[n]`) at this point of the schedule instead of at the start: creating an
+    /// instance is an operation too, and must not disturb the live ones
+    Create { n: usize },
     /// derived Clone of `src` becomes node `dst`
     Fork {
         src: usize,
@@ -72,6 +75,7 @@ impl Op {
             Op::Feed { n, .. }
             | Op::Gen { n, .. }
             | Op::Reset { n }
+            | Op::Create { n }
             | Op::Drop { n }
             | Op::Ckpt { n, .. }
             | Op::Crash { n, .. }
@@ -89,6 +93,7 @@ impl Op {
             Op::Feed { .. } => "feed",
             Op::Gen { .. } => "gen",
             Op::Reset { .. } => "reset",
+            Op::Create { .. } => "create",
             Op::Fork { .. } => "fork",
             Op::Drop { .. } => "drop",
             Op::Ckpt { .. } => "checkpoint",
@@ -106,6 +111,7 @@ impl Op {
             Op::Feed { .. } => 1,
             Op::Gen { .. } => 2,
             Op::Reset { .. } => 3,
+            Op::Create { .. } => 14,
             Op::Fork { .. } => 4,
             Op::Drop { .. } => 5,
             Op::Ckpt { .. } => 6,
